@@ -482,6 +482,7 @@ def run_search(prog):
     global TABLE, COUNT, SCALE, SLOW_FIRST
     events = []
     shared = None
+    own_grid = None
     for op in prog:
         _, grid, reps, mode, procs, scale, table = op
         names = [n for n, _ in grid]
@@ -498,7 +499,13 @@ def run_search(prog):
         exc = None
         report, best = [], 0
         try:
-            if len(prog) > 1:
+            if len(prog) > 1 and len(prog[0][1][0][1]) == 3:
+                # a tuning loop: every search of the program gets its own freshly written dict grid (the earlier one is gone by then)
+                # (as in a helper `def scan(lo, hi): return grid_search(M, {'x': range(lo, hi)}, ...)` called step after step)
+                own_grid = None
+                own_grid = {nm: list(v) for nm, v in grid}
+                params = own_grid
+            elif len(prog) > 1:
                 # several searches of one program re-use ONE ParameterList object
                 if shared is None:
                     shared = ParameterList({nm: list(v) for nm, v in grid})
@@ -571,8 +578,8 @@ def repeated_search_programs(tables, rng, n):
         nc = rng.choice([2, 3])
         g = [["x", list(range(nc))]]
         prog = []
-        for k in range(rng.choice([2, 3])):
-            if k and rng.random() < 0.5:
+        for k in range(rng.choice([2, 3]) + (nc == 3) * rng.choice([0, 2])):
+            if k and rng.random() < (0.5 if nc == 2 else 0.8):
                 g = [["x", [v + 1 for v in g[0][1]]]]          # the grid is shifted (same number of points)
             reps = rng.choice([1, 2])
             t = [[rng.choice([-3, -1, 0, 0, 2, 5]) for _ in range(reps)] for _ in range(nc)]
